@@ -44,6 +44,24 @@ carrying its label in the saved label map are exactly its own pixels. -/
 theorem C09_regroup_correct (f : List Tree) (n : Nat) (h : P8.WF f n) (t : Tree) (ht : t ∈ preL f) :
     (binOf (labelMap f n) t.id).Perm t.own := P8.binOf_perm f n h t ht
 
+/-- **C09 (what a save / load cycle does to the forest).** `reload f n` re-reads the tree from the
+text (round trip proved above) and rebuilds own pixel lists from the label map: identifiers,
+children *and their order*, iteration order are preserved exactly; every structure owns the same
+pixels (as a set); the label map is unchanged; the hierarchy is the same; loading twice changes
+nothing more. -/
+theorem C09_reload_shape (f : List Tree) (n : Nat) :
+    (preL (reload f n)).map (fun t => (t.id, t.kids.map Tree.id)) = (preL f).map (fun t => (t.id, t.kids.map Tree.id)) :=
+  P21.reload_shape f n
+theorem C09_reload_own (f : List Tree) (n : Nat) (h : P8.WF f n) :
+    ∀ k, k < (preL f).length → ((preL (reload f n)).getD k default).own.Perm ((preL f).getD k default).own :=
+  P21.reload_own f n h
+theorem C09_reload_labelMap (f : List Tree) (n : Nat) (h : P8.WF f n) : labelMap (reload f n) n = labelMap f n :=
+  P21.reload_labelMap f n h
+theorem C09_reload_same_hierarchy (f : List Tree) (n : Nat) (h : P8.WF f n) : P10.SimL (fun p => p) f (reload f n) :=
+  P21.reload_sim f n h
+theorem C09_reload_idempotent (f : List Tree) (n : Nat) (h : P8.WF f n) : reload (reload f n) n = reload f n :=
+  P21.reload_idem f n h
+
 /-- **C09 (format identification).** When writing, the extension decides (case-insensitively) and
 the two extension sets are disjoint, so the order of the handler table is irrelevant; an
 existing file is recognised from its signature whatever its name, and the two signatures are
